@@ -92,6 +92,27 @@ def _elem(ids, rng, pool):
     return dict(id=ids(), kind="elem", pic=pic, usage=usage, size=size, occ=None, redef=None, filler=False, kids=[])
 
 
+def gen_bincounter(rng):
+    """the smallest member of flat_odo with a BINARY controlling item: 01 R. 05 C PIC 9(4) COMP. 05 T ... OCCURS 0 TO m
+    DEPENDING ON C [05 Z ...] - with low-values (X'00') in every data byte a record with count 0 is nothing but zero bytes.
+    m <= 9: the two counter bytes 00 0c read the same as a binary number and as zoned low nibbles."""
+    top = dict(id=1, kind="group", occ=None, redef=None, filler=False, kids=[])
+    top["kids"].append(dict(id=2, kind="elem", pic="9(4)", usage=rng.choice(["COMP", "BINARY", "COMPUTATIONAL"]), size=2,
+                            occ=None, redef=None, filler=False, kids=[], is_counter=True, binary=True))
+    k = rng.randint(1, 4)
+    mx = rng.randint(1, 9)
+    if rng.random() < 0.5:
+        top["kids"].append(dict(id=3, kind="elem", pic=f"X({k})", usage="DISPLAY", size=k, occ=("odo", 2, mx), redef=None,
+                                filler=False, kids=[]))
+    else:
+        g = dict(id=3, kind="group", occ=("odo", 2, mx), redef=None, filler=False, kids=[])
+        g["kids"].append(dict(id=4, kind="elem", pic=f"X({k})", usage="DISPLAY", size=k, occ=None, redef=None, filler=False, kids=[]))
+        top["kids"].append(g)
+    if rng.random() < 0.4:
+        top["kids"].append(dict(id=5, kind="elem", pic="X(2)", usage="DISPLAY", size=2, occ=None, redef=None, filler=False, kids=[]))
+    return top
+
+
 def gen_flat(rng):
     """a member of flat_odo: fixed elementary items, counters, elementary / one-level-group tables"""
     nxt = [0]
@@ -228,6 +249,9 @@ def inputs(ctx):
     # the same variable-length records in a fixed-length (RECFM F/FB) file: each record padded to the file's LRECL
     for i in range(40 if q else 500):
         yield "fixed", dict(kind="flat" if i % 2 == 0 else "nested", seed=rng.randrange(1 << 30), recfm=3, lrecl=None)
+    # a BINARY controlling item in records of low-values: a record whose count is zero is all X'00', also at the end of the file
+    for i in range(30 if q else 300):
+        yield "binary-counter", dict(kind="bincounter", seed=rng.randrange(1 << 30), recfm=[0, 0, 1, 2][i % 4], lrecl=rng.choice([1, 80, 32768]))
     # lrecl=None (what the docstring of COBOL_EBCDIC_File asks for with an OCCURS DEPENDING ON layout) and lrecl=0, through every
     # reader; RECFM F / FB (flat family only: every member holds an ODO table, so no length can be computed) must refuse with TypeError
     for i in range(16 if q else 96):
@@ -244,7 +268,10 @@ def pick_nrec(rng):
 
 def build_case(c):
     rng = random.Random(c["seed"])
-    if c["kind"] == "flat":
+    if c["kind"] == "bincounter":
+        tree = gen_bincounter(rng)
+        nrec = rng.randint(2, 8)
+    elif c["kind"] == "flat":
         tree = gen_flat(rng)
         nrec = pick_nrec(rng)
     elif c["kind"] == "nested":
@@ -261,9 +288,18 @@ def build_case(c):
             # counts around the middle so that lengths straddle the target; 32698 + 70 = 32768 is the largest legal record
             env = {2: rng.choice([0, 9, 10, 11, 20, 20, 19, 1])}
         total, ctrs, paths = layout(tree, env)
-        r = bytearray(code(pos + i) for i in range(total))
-        for cid, _p, st, sz in ctrs:
-            r[st:st + sz] = bytes(0xF0 + int(d) for d in f"{env[cid]:0{sz}d}")
+        if c["kind"] == "bincounter":
+            # low-values everywhere, the counter as a big-endian binary number; zero counts at the END of the file
+            if j >= nrec - 1 - (c["seed"] % 3):
+                env = {k: 0 for k in env}
+                total, ctrs, paths = layout(tree, env)
+            r = bytearray(total)
+            for cid, _p, st, sz in ctrs:
+                r[st:st + sz] = env[cid].to_bytes(sz, "big")
+        else:
+            r = bytearray(code(pos + i) for i in range(total))
+            for cid, _p, st, sz in ctrs:
+                r[st:st + sz] = bytes(0xF0 + int(d) for d in f"{env[cid]:0{sz}d}")
         envs.append(env)
         recs.append(bytes(r))
         per_row.append(row_paths(tree, env, paths, rng))
